@@ -380,6 +380,31 @@ theorem createOn_eq (s : St K N T) (sys : Bool) (id : K) (v : Vals K N T) (lvl :
   unfold createOn
   simp only [hr]
 
+/-! ### the bucket's error holder: `ProceedWithSet` -/
+
+/-- a setter called on a bucket whose error holder is set does nothing — for every kind of setter -/
+theorem Write.run_errored (w : Write K N T) {b : Bkt K N T} (h : b.err.isSome = true) : w.run b = b := by
+  have hn : b.err.isNone = false := by
+    cases hb : b.err with
+    | none => rw [hb] at h; cases h
+    | some _ => rfl
+  cases w <;> simp [Write.run, Bkt.proceedWithSet, hn]
+
+/-- … hence a whole `PersistEntity`, whatever setters it is made of, in whatever order, with
+    whatever checker: nothing is written and the error stays -/
+theorem runWrites_errored (ws : List (Write K N T)) {b : Bkt K N T} (h : b.err.isSome = true) : runWrites ws b = b := by
+  induction ws with
+  | nil => rfl
+  | cons w ws ih =>
+    show runWrites ws (w.run b) = b
+    rw [Write.run_errored w h]; exact ih
+
+/-- the strategy of the universe on a clean bucket: the bucket becomes `updEnt …`, no error is raised -/
+theorem runWrites_strat (v : Vals K N T) (sn st so : Bool) (lvl : Option (Bool × N)) (e : Ent K N T) :
+    runWrites (stratWrites v sn st so lvl) { ent := e, err := none } =
+      { ent := updEnt v sn st so lvl e, err := none, wrote := true } := by
+  rcases lvl with _ | ⟨sl, l⟩ <;> cases sn <;> cases st <;> cases so <;> (try cases sl) <;> rfl
+
 theorem updateOn_eq {s : St K N T} {id : K} {e : Ent K N T} (hg : s.ents.get id = some e) (sys : Bool)
     (v : Vals K N T) (sn st so : Bool) (lvl : Option (Bool × N)) :
     updateOn s sys id v sn st so lvl e =
@@ -387,8 +412,14 @@ theorem updateOn_eq {s : St K N T} {id : K} {e : Ent K N T} (hg : s.ents.get id 
       else if decide ((updEnt v sn st so lvl e).owner ≠ e.owner) && !ownerOk s (updEnt v sn st so lvl e).owner then
         { st := s.putEnt id (updEnt v sn st so lvl e), err := some .noOwner }
       else { st := s.putEnt id (updEnt v sn st so lvl e) } := by
-  unfold updateOn
+  unfold updateOn updateWith
   rw [refused_of_get hg]
+  by_cases hp : (e.protectedBy s.reg && !sys) = true
+  · have h0 : runWrites (stratWrites v sn st so lvl) ({ ent := e, err := some .sysUpdate } : Bkt K N T) =
+        { ent := e, err := some .sysUpdate } := runWrites_errored _ rfl
+    simp [hp, h0]
+  · have h1 := runWrites_strat v sn st so lvl e
+    simp [hp, h1]
 
 theorem deleteOne_missing {s : St K N T} {id : K} (hg : s.ents.get id = none) (sys : Bool) :
     deleteOne s sys id = { st := s, err := some .notFound } := by
